@@ -172,8 +172,19 @@ func (m *meta) sample(s string) {
 		m.Samples = append(m.Samples, s)
 	}
 }
+var violMu sync.Mutex
+
 func (m *meta) violate(prop, what, replay string) {
-	if len(m.Violations) < 50 {
+	violMu.Lock()
+	defer violMu.Unlock()
+	// capped per property, so that a flood of reports about one property cannot hide the first report about another
+	n := 0
+	for _, v := range m.Violations {
+		if v.Property == prop {
+			n++
+		}
+	}
+	if n < 25 {
 		m.Violations = append(m.Violations, violation{prop, what, replay})
 	}
 }
